@@ -1,5 +1,13 @@
 # Per-property check configuration for ./check (entries = harness entry functions in /verif/harness).
 PROPS = {
+    "C17": {
+        "quick": {"entries": ["H_C17_Sequence", "H_C17_Rotation"]},
+        "thorough": {"entries": ["H_C17_Sequence", "H_C17_Rotation"], "opts": {"maxpaths": 2000000}},
+        "covers": {"H_C17_Sequence": ["c17.sequence", "c17.new.rejected"], "H_C17_Rotation": ["c17.rotation"]},
+        "bounds": {"keys": "3 distinct symbolic 16-byte keys + one 15-byte key", "ops": "3 (quick) / 4 (thorough) of Add/Use/Remove/GetKeys/GetPrimaryKey after NewKeyring in 4 shapes", "rotation": "2 nodes, every reachable pair of phase positions"},
+        "outside": ["the data race itself (its cause, the in-place rewrite of a returned key list, is asserted)", "24/32-byte keys (length validation is concrete code)"],
+        "assumptions": [],
+    },
     "C10": {
         "quick": {"entries": ["H_C10_Sequence"], "opts": {"maxpaths": 400000}},
         "thorough": {"entries": ["H_C10_Sequence"], "opts": {"maxpaths": 3000000}},
